@@ -1,8 +1,8 @@
 /*VERIF
-{ "tu": "src/data.c", "enforce": "_dispatch_data_dispose", "props": ["C13", "C17"], "seq": true, "timeout": 300,
+{ "tu": "src/data.c", "enforce": "_dispatch_data_dispose", "props": ["C13", "C17"], "seq": true, "timeout": 300, "cbmc_flags": ["--sat-solver", "cadical"],
   "assumes": ["_dispatch_data_dispose runs exactly once per object, when its last reference is dropped (C17: release_internal / dispatch_dispose contracts)",
               "composite objects: up to 4 records (static typed harness object); the record loop is closed by a loop contract (unbounded in the bound of the object)"],
-  "stub_note": "free, dispatch_async_f (the client's destructor block is posted once), dispatch_release: logged" }
+  "stub_note": "free, munmap, dispatch_async_f (the client's destructor block is posted once), dispatch_release: logged" }
 VERIF*/
 #ifdef VERIF_PRE
 #include <stddef.h>
@@ -12,9 +12,10 @@ extern size_t H_nrec_g; extern unsigned H_releases_seen; extern _Bool H_wrong_re
 #define H_RELEASE_HOOK(o) h_release_hook((o)._do)
 static inline void h_release_hook(void *p);
 #include "contracts/C13/data_common.h"
-enum { K_FREE = 190, K_ASYNC_DESTRUCTOR, K_RELEASE };
+enum { K_FREE = 190, K_ASYNC_DESTRUCTOR, K_RELEASE, K_MUNMAP };
 size_t H_nrec_g; unsigned H_releases_seen; _Bool H_wrong_release;
 void free(void *p) { __verif_event(K_FREE, 0, p, 0, 0); }
+int munmap(void *p, size_t len) { __verif_event(K_MUNMAP, 0, p, len, 0); return 0; }
 void dispatch_async_f(dispatch_queue_t q, void *ctxt, dispatch_function_t f) { (void)f; __verif_event(K_ASYNC_DESTRUCTOR, 0, q, (unsigned long long)(uintptr_t)ctxt, 0); }
 static inline void h_release_hook(void *p) { if (p != (void *)&H_leaf[H_releases_seen]) H_wrong_release = 1; H_releases_seen++; }
 int H_kind;  /* 1 leaf, 3 composite */
@@ -32,7 +33,11 @@ VERIF_CONTRACT_VOID(_dispatch_data_dispose, (dispatch_data_t dd, bool *allow_fre
   ENS(leaf_buffer_is_destroyed_exactly_once_as_its_destructor_says, VIMPL(H_kind == 1,
         DESTR == DISPATCH_DATA_DESTRUCTOR_FREE ? (__verif_n == 1 && LOGK(0) == K_FREE && LOGP(0) == (void *)H_bytes)
         : DESTR == DISPATCH_DATA_DESTRUCTOR_NONE ? (__verif_n == 0)
+        : DESTR == DISPATCH_DATA_DESTRUCTOR_MUNMAP ? (__verif_n == 1 && LOGK(0) == K_MUNMAP && LOGP(0) == (void *)H_bytes && LOGA(0) == H_leaf[0].size)
         : (__verif_n == 1 && LOGK(0) == K_ASYNC_DESTRUCTOR && LOGA(0) == (unsigned long long)(uintptr_t)DESTR && LOGP(0) == (void *)(H_leaf[0].do_targetq ? H_leaf[0].do_targetq : _dispatch_get_default_queue(false)))))
+  /* the library's own destructor constants are markers (their block bodies crash the process): they are never posted as blocks */
+  ENS(library_destructor_markers_are_never_run_as_blocks, VIMPL(H_kind == 1 && (DESTR == DISPATCH_DATA_DESTRUCTOR_FREE || DESTR == DISPATCH_DATA_DESTRUCTOR_NONE || DESTR == DISPATCH_DATA_DESTRUCTOR_MUNMAP),
+        __verif_n == 0 || LOGK(0) != K_ASYNC_DESTRUCTOR))
   ENS(leaf_releases_no_other_object, VIMPL(H_kind == 1, H_releases_seen == 0))
   /* a composite owns one reference per record and a private flat copy (if one was made): each is dropped exactly once, in order;
    * the leaves' buffers are NOT touched here (they go when the leaf itself is disposed) */
@@ -46,7 +51,7 @@ void harness(void)
 	h_build_composite(&H_in, H_leaf, 1); H_nrec_g = H_nrec;
 	H_in.d.buf = ND_BOOL() ? (const void *)H_bytes : (const void *)0;
 	H_leaf[0].buf = H_bytes; H_leaf[0].do_targetq = ND_BOOL() ? &H_destructor_q : (dispatch_queue_t)0;
-	int dk = ND(int); H_leaf[0].destructor = dk == 0 ? DISPATCH_DATA_DESTRUCTOR_FREE : dk == 1 ? DISPATCH_DATA_DESTRUCTOR_NONE : (dispatch_block_t)h_client_destructor;
+	int dk = ND(int); H_leaf[0].destructor = dk == 0 ? DISPATCH_DATA_DESTRUCTOR_FREE : dk == 1 ? DISPATCH_DATA_DESTRUCTOR_NONE : dk == 2 ? DISPATCH_DATA_DESTRUCTOR_MUNMAP : (dispatch_block_t)h_client_destructor;
 	bool af = 1;
 	_dispatch_data_dispose(H_kind == 1 ? &H_leaf[0] : &H_in.d, &af);
 	VERIF_POST_VOID(_dispatch_data_dispose, H_kind == 1 ? &H_leaf[0] : &H_in.d, &af);
